@@ -15,9 +15,12 @@ import (
 	"strconv"
 	"strings"
 
+	"github.com/dave/jennifer/jen"
+
 	"verif/internal/ev"
 	"verif/internal/explore"
 	"verif/internal/imp"
+	"verif/internal/jh"
 )
 
 // C18: standard-library packages are referred to by their real names.
@@ -179,6 +182,24 @@ func c18World(names map[string]string, paths []string, scenario string) *imp.Wor
 		w.AnonImport(paths[0])
 		wrapper = imp.WrapperIndex("dictvalue")
 	}
+	if scenario == "last-reference-shared-with-an-earlier-file" {
+		// the statement referring to the last path is first rendered as part of ANOTHER File (in which
+		// it is the only import), then added to this one after the other references
+		last := paths[len(paths)-1]
+		for _, p := range paths[:len(paths)-1] {
+			w.Ref(p, wrapper)
+		}
+		sym := fmt.Sprintf("R%d", len(w.Refs))
+		shared := jen.Var().Id("_").Op("=").Qual(last, sym)
+		other := jen.NewFile("other")
+		other.Add(shared)
+		other.GoString()
+		_ = fmt.Sprintf("%#v", shared)
+		w.Refs = append(w.Refs, imp.Ref{Path: last, Sym: sym, Wrapper: "shared", Rendered: true})
+		w.F.Add(shared)
+		w.Log = append(w.Log, fmt.Sprintf("Ref(%q) through a statement rendered in another File before", last))
+		return w
+	}
 	for _, p := range paths {
 		w.Ref(p, wrapper)
 	}
@@ -273,16 +294,21 @@ func runC18(r *ev.Recorder) {
 	}
 	r.Rule = "every package directory below <GOROOT>/src of the installed toolchain (outside cmd, vendor, testdata; package name = the name its non-test files declare, parsed with go/parser), " +
 		"(a) alone under 17 scenarios (in a File with a cgo preamble that never refers to C; a non-ASCII PackagePrefix, a non-ASCII alias, render / Anon of the path / render again, Anon / render / reference; next to a third-party import, aliased next to one, after two third-party packages of the same name, plain, PackagePrefix, ImportAlias = last path element, ImportAlias = real name, truthful ImportName, Anon then reference, Anon then reference inside a Dict value, in a File whose own package path ends in the package path, in a File whose own path is the last element); " +
-		"(b) every ordered pair of packages, plain, with prefix (ASCII and non-ASCII), and with the second aliased to the name of the first (pairs that share a declared or guessed name - thorough: all pairs - also inside a Dict after Anon, with aliases, Anon then reference, and next to a third-party import); every ordered triple of packages sharing a declared name; " +
+		"(b) every ordered pair of packages (same-named pairs also: the second reference through a statement that was rendered in another File before; as two stand-alone fragments one after the other), plain, with prefix (ASCII and non-ASCII), and with the second aliased to the name of the first (pairs that share a declared or guessed name - thorough: all pairs - also inside a Dict after Anon, with aliases, Anon then reference, and next to a third-party import); every ordered triple of packages sharing a declared name; " +
 		"oracle on the parsed output: the spec of the path has no alias and the qualifier is the declared name, or has an alias equal to the qualifier; names unique; go/types resolves every reference against a fabricated importer declaring the parsed names. " +
 		"(c) the repository's gennames tool is built and run under a matrix of its flags (-standard; -novendor on/off; 6 filters incl. one that matches only vendored packages and one that matches nothing; default and explicit -package/-name): every entry equals the name parsed from that directory (GOROOT/src/vendor for vendored ones), matches the filter, is no main package; filtered tables are exactly the filter's selection of the unfiltered one; -novendor removes exactly the vendored entries. " +
 		"distinct_nontrivial = distinct (path set, scenario) cases in which some package's declared name differs from its last path element or two packages compete for a name"
 	r.Assume = []string{"package names are read from the package clauses in GOROOT/src (files tagged ignore and package main excluded; majority name per directory)",
-		"thorough also covers /opt/veriftools/go1.26.8/src"}
+		"thorough also covers the importable (non-internal) packages of /opt/veriftools/go1.26.8/src"}
 	for _, goroot := range goroots {
 		names := stdPackages(goroot)
 		var paths []string
 		for p := range names {
+			// the second toolchain is newer than the tree's name table: only what a program can import
+			// from it counts there (internal packages may have been renamed since, e.g. macOS -> macos)
+			if goroot != runtime.GOROOT() && (strings.Contains("/"+p+"/", "/internal/")) {
+				continue
+			}
 			paths = append(paths, p)
 		}
 		sort.Strings(paths)
@@ -330,6 +356,17 @@ func runC18(r *ev.Recorder) {
 			one(ps, "prefix")
 			one(ps, "second-aliased-to-name-of-first")
 			one(ps, "non-ascii-prefix")
+			if names[ps[0]] == names[ps[1]] || guessKey(ps[0]) == guessKey(ps[1]) {
+				one(ps, "last-reference-shared-with-an-earlier-file")
+				// two stand-alone fragments one after the other: the second is qualified by its own name
+				jh.Catch(func() (string, error) { return jen.Qual(ps[0], "X").GoString(), nil })
+				o := jh.Catch(func() (string, error) { return jen.Qual(ps[1], "Y").GoString(), nil })
+				r.Eval(1)
+				if want := names[ps[1]] + ".Y"; !o.OK() || strings.TrimSpace(o.Out) != want {
+					desc := fmt.Sprintf("Qual(%q, X).GoString() and then Qual(%q, Y).GoString()", ps[0], ps[1])
+					r.Violate(ev.Violation{Signature: "c18:fragment-after-fragment", What: fmt.Sprintf("%s: the second renders %q, want %q", desc, o, want), Case: ev.JSON(c18Case{Goroot: goroot, Paths: ps, Scenario: "gennames", Desc: desc})})
+				}
+			}
 			if names[ps[0]] == names[ps[1]] {
 				one(ps, "next-to-a-third-party-import")
 				one(ps, "aliased-next-to-a-third-party-import")
